@@ -323,7 +323,52 @@ fn case<S: GElem>(ctx: &Ctx, rep: &mut Report, case: u64, g: &mut Sm64) {
     }
 }
 
+/// A conditional that itself runs a Gibbs chain (blocked / hierarchical samplers): every call of
+/// the outer conditional performs one full sweep of an inner chain.
+#[derive(Clone, Debug)]
+pub struct NestCond {
+    pub inner: GibbsMarkovChain<f64, RecCond<f64>>,
+}
+impl Conditional<f64> for NestCond {
+    fn sample(&mut self, index: usize, _given: &[f64]) -> f64 {
+        let s = self.inner.step();
+        s[index % s.len()]
+    }
+}
+
+fn nested_case(rep: &mut Report, case: u64, g: &mut Sm64) {
+    let mon = "history";
+    let sig = "GibbsMarkovChain::step (inner chain stepped from inside the outer chain's conditional)";
+    let (d_out, d_in) = (g.range(1, 4), g.range(1, 6));
+    let n_steps = g.range(1, 8);
+    let init_in: Vec<f64> = (0..d_in).map(|i| <f64 as GElem>::unique(5_000_000 + i as u64, false)).collect();
+    let rc = RecCond::<f64> { calls: vec![], counter: 0, weird: false, zeros: false, panic_at: None, _p: std::marker::PhantomData };
+    let inner = GibbsMarkovChain::new(rc, &init_in);
+    let init_out: Vec<f64> = (0..d_out).map(|i| -(i as f64) - 1.0).collect();
+    let mut outer = GibbsMarkovChain::new(NestCond { inner }, &init_out);
+    let r = guard(|| {
+        for _ in 0..n_steps {
+            outer.step();
+        }
+    });
+    rep.evals(n_steps as u64);
+    if let Err(m) = r {
+        rep.violation(&format!("{sig} panic"), mon, case, json!({"d_outer": d_out, "d_inner": d_in, "panic": m}));
+        return;
+    }
+    // every outer call = one inner sweep, each of them complete and conditioned on the freshest state
+    let calls = &outer.target.inner.target.calls;
+    if check_history(rep, sig, mon, case, d_in, &bits_vec(&init_in), calls, &[], n_steps * d_out) {
+        rep.count("nested_chains_checked");
+        rep.distinct(("nested", d_out, d_in, n_steps));
+    }
+}
+
 pub fn run(ctx: &Ctx, rep: &mut Report) {
+    for c in ctx.case_ids("nested", 60, 20_000) {
+        let mut g = ctx.rng("nested", c);
+        nested_case(rep, c, &mut g);
+    }
     for c in ctx.case_ids("history", 1200, 2_000_000) {
         let mut g = ctx.rng("history", c);
         match c % 3 {
